@@ -15,7 +15,8 @@
 
   Bytes are modelled as `Nat` (< 256 on every path the driver feeds).
 
-  Deviation switches (all off = the intended behaviour = proposed_fixes/C10-fragment-completeness.patch):
+  Deviation switches (all off = the intended behaviour = the code since /repo commit caf22ad, which applied
+  proposed_fixes/C10-fragment-completeness.patch; both on = the code before it, finding C10-F1, fixed):
     * `eofIsEos`            (C10-F1) arrow's `MessageReader::read_meta_len` maps an `UnexpectedEof` while
                             reading the 4-byte prefix of the NEXT message to "end of stream", and nothing
                             after an explicit EOS marker is looked at.  So a body cut at a message boundary
@@ -33,7 +34,7 @@ structure Dev where
   ignoreDeclaredRows : Bool := false
 deriving DecidableEq, Repr
 
-/-- the code as it is in /repo today -/
+/-- the code as it was in /repo before commit caf22ad (finding C10-F1) -/
 def Dev.legacy : Dev := { eofIsEos := true, ignoreDeclaredRows := true }
 /-- all switches off: the intended decoder / coordinator -/
 def Dev.fixed : Dev := {}
